@@ -44,6 +44,138 @@ def _m(ci, name):
     return fn
 
 
+def _paths(fn, sinks=()):
+    from ..pathinterp import PathInterp
+    return PathInterp(fn, sinks, {}, evaluator=EmEval, max_paths=128).run()
+
+
+def _zero_test(dec, quantity_keys):
+    """True if the path assumed '<quantity> == 0' (or <= 0), False if it assumed the opposite, None if never tested."""
+    for k, bval in dec.items():
+        m = k.replace(' ', '')
+        for q in quantity_keys:
+            for suf, pos in (('==0.0', True), ('==0', True), ('<=0.0', True), ('<=0', True), ('!=0.0', False), ('!=0', False), ('>0.0', False), ('>0', False)):
+                if m == q + suf:
+                    return bval if pos else (not bval)
+    return None
+
+
+def _emission(run, ci, kind):
+    """emission(): on every path either the spectrum is returned untouched (and the tested density is zero) or the line shape
+    receives the documented radiance; a rate is never evaluated on a zero-density path."""
+    K = '%s|%s|' % (ci.mod.name, ci.name)
+    fn = _m(ci, 'emission')
+    bp, pp, bd, od, sp = [a.arg for a in fn.args.args[1:6]]
+    rate_name = 'self._composite_cx_rate' if kind == 'cx' else 'self._beam_emission_rate'
+    try:
+        paths = _paths(fn, ('self._lineshape.add_line',))
+    except Exception as e:
+        run.subject('C05-R1')
+        run.undecided('C05-R1', ci.name + '.emission', 'cannot interpret: %s' % e)
+        return None
+    e0, rec = body_env(fn)
+    nb = expr('self._beam.density(%s.x, %s.y, %s.z)' % (bp, bp, bp))
+    XYZ = '(%s.x, %s.y, %s.z)' % (pp, pp, pp)
+    nr = expr('self._target_species.distribution.density' + XYZ)
+    # names of the locals holding the two densities (whatever they are called): the tests are on them
+    dens_keys = {'beam': set(), 'receiver': set()}
+    for t, v, st in stores(fn):
+        if isinstance(t, ast.Name):
+            try:
+                val = e0.ev(v)
+            except Exception:
+                continue
+            if val.eq(nb):
+                dens_keys['beam'].add(t.id)
+            if kind == 'cx' and val.eq(nr):
+                dens_keys['receiver'].add(t.id)
+    dens_keys['beam'].add(nb.key().replace(' ', ''))
+    dens_keys['receiver'].add(nr.key().replace(' ', ''))
+    emitted = 0
+    zero_seen = {'beam': False, 'receiver': False}
+    bad = []
+    rate_leaf_texts = set()
+    for p in paths:
+        dec = dict(p.decisions)
+        if p.returned is not None and p.returned.key() == 'raise':
+            continue
+        zb = _zero_test(dec, dens_keys['beam'])
+        zr = _zero_test(dec, dens_keys['receiver']) if kind == 'cx' else None
+        rate_leaves = [l for s_ in p.sinks for a_ in s_[1] for l in a_.leaves() if l.startswith(rate_name + '(')]
+        if zb or zr:
+            which = 'beam' if zb else 'receiver'
+            zero_seen[which] = True
+            if p.sinks or (p.returned is not None and p.returned.key() != sp):
+                bad.append(('R3', which, dec))
+            continue
+        if not p.sinks:
+            # spectrum untouched although no density was found to be zero: allowed only for the other documented zero tests
+            continue
+        emitted += 1
+        rad = p.sinks[0][1][0]
+        rl = [l for l in rad.leaves() if l.startswith(rate_name + '(')]
+        if len(rl) != 1:
+            bad.append(('R1', 'radiance %s' % rad.key()[:160], dec))
+            continue
+        rate_leaf_texts.add(rl[0])
+        want = L('RECIP_4_PI') * nb * (nr if kind == 'cx' else C(1)) * L(rl[0])
+        if not rad.eq(want):
+            bad.append(('R1', 'radiance %s' % rad.key()[:200], dec))
+    run.subject('C05-R1')
+    r1 = [b_ for b_ in bad if b_[0] == 'R1']
+    if r1:
+        run.fail('C05-R1', K + 'emission|radiance', ci.mod.relpath, fn.lineno,
+                 '%s %s on the path %s; documented: (1/4pi) n_beam %s* rate' % (ci.name, r1[0][1], r1[0][2], 'n_receiver ' if kind == 'cx' else ''))
+    elif emitted:
+        run.ok('C05-R1', ('CX' if kind == 'cx' else 'beam emission') + ' radiance', 'RECIP_4_PI * n_beam * %srate on %d emitting path(s)' % ('n_rec * ' if kind == 'cx' else '', emitted))
+    else:
+        run.fail('C05-R1', K + 'emission|radiance', ci.mod.relpath, fn.lineno, '%s.emission never hands a radiance to the line shape' % ci.name)
+    for which in (('beam', 'receiver') if kind == 'cx' else ('beam',)):
+        run.subject('C05-R3')
+        r3 = [b_ for b_ in bad if b_[0] == 'R3' and b_[1] == which]
+        if r3:
+            run.fail('C05-R3', K + 'emission|guard:%s' % which, ci.mod.relpath, fn.lineno,
+                     '%s.emission adds a line although the %s density is zero on the path %s' % (ci.name, which, r3[0][2]))
+        elif zero_seen[which]:
+            run.ok('C05-R3', '%s %s density' % (ci.name, which), 'zero -> the untouched spectrum is returned, no line added')
+        else:
+            run.fail('C05-R3', K + 'emission|guard:%s' % which, ci.mod.relpath, fn.lineno,
+                     '%s.emission does not test the %s density for zero before evaluating the rates: the result is not exactly the untouched spectrum' % (ci.name, which))
+    # the zero tests come before the rate is evaluated
+    run.subject('C05-R3')
+    rc = [c for c in ast.walk(fn) if isinstance(c, ast.Call) and norm(c.func) == rate_name]
+    early = True
+    for c in rc:
+        f = facts(guards_of(fn, c) or [])
+        for which in (('beam', 'receiver') if kind == 'cx' else ('beam',)):
+            if not any((a[0].replace(' ', '') in dens_keys[which] and a[1] in ('!=', '>') and a[2] in ('0', '0.0')) for a in f):
+                early = False
+    if rc and early:
+        run.ok('C05-R3', ci.name + ' rates after the zero tests', 'the composite rate is only evaluated where the densities are non-zero', sample=False)
+    elif rc:
+        run.fail('C05-R3', K + 'emission|guard-order', ci.mod.relpath, rc[0].lineno, '%s.emission evaluates %s before the zero-density tests' % (ci.name, rate_name))
+    return e0, rc, sorted(rate_leaf_texts)
+
+
+def _split_args(leaf):
+    """top-level arguments of 'name(a, b(c, d), e)'"""
+    inner = leaf[leaf.index('(') + 1:-1]
+    out, depth, cur = [], 0, ''
+    for ch in inner:
+        if ch in '([':
+            depth += 1
+        elif ch in ')]':
+            depth -= 1
+        if ch == ',' and depth == 0:
+            out.append(cur.strip())
+            cur = ''
+        else:
+            cur += ch
+    if cur.strip():
+        out.append(cur.strip())
+    return out
+
+
 def _cx(run, ci):
     run.describe('C05-R1', 'radiance and weighted-mean forms')
     run.describe('C05-R2', 'BeamCXPEC.evaluate(E_int, T_rec, ion_density, z_effective, |B|) by provenance')
@@ -51,105 +183,71 @@ def _cx(run, ci):
     K = ci.mod.name + '|BeamCXLine|'
     fn = _m(ci, 'emission')
     bp, pp, bd, od, sp = [a.arg for a in fn.args.args[1:6]]
-    e, rec = body_env(fn)
-    call = [c for c in ast.walk(fn) if isinstance(c, ast.Call) and isinstance(c.func, ast.Attribute) and c.func.attr == 'add_line']
-    run.subject('C05-R1')
-    got = e.ev(call[0].args[0]) if call else None
-    nb = 'self._beam.density(%s.x, %s.y, %s.z)' % (bp, bp, bp)
     XYZ = '(%s.x, %s.y, %s.z)' % (pp, pp, pp)
-    nr = 'self._target_species.distribution.density' + XYZ
-    rate_calls = [c for c in ast.walk(fn) if isinstance(c, ast.Call) and norm(c.func) == 'self._composite_cx_rate']
-    if got is not None and rate_calls:
-        q = e.ev(rate_calls[0])
-        want = L('RECIP_4_PI') * expr(nb) * expr(nr) * q
-        if got.eq(want):
-            run.ok('C05-R1', 'CX radiance', 'RECIP_4_PI * n_beam * n_rec * q')
-        else:
-            run.fail('C05-R1', K + 'emission|radiance', ci.mod.relpath, fn.lineno, 'CX radiance is %s; documented: (1/4pi) n_beam n_receiver q' % got.key()[:220])
-    else:
-        run.fail('C05-R1', K + 'emission|radiance', ci.mod.relpath, fn.lineno, 'CX emission does not hand a radiance built from _composite_cx_rate to the line shape')
-    # arguments of _composite_cx_rate: (x, y, z, E_int, donor_velocity, T_rec)
+    r = _emission(run, ci, 'cx')
+    if r is None:
+        return
+    e, rate_calls, leaves = r
+    # arguments of _composite_cx_rate: (x, y, z, E_int, donor_velocity, T_rec), as evaluated on the emitting paths
     run.subject('C05-R2')
-    ok = False
+    ok = bool(leaves)
     detail = None
-    if rate_calls and len(rate_calls[0].args) == 6:
-        a = [e.ev(v) for v in rate_calls[0].args]
-        eint, dv, tr = a[3].key(), a[4].key(), a[5].key()
+    for lf in leaves:
+        a = _split_args(lf)
+        if len(a) != 6:
+            ok = False
+            continue
+        eint, dv, tr = a[3], a[4], a[5]
         detail = (eint[:120], tr[:80])
-        ok = eint.startswith('ms_to_evamu(') and 'self._beam.get_energy()' in eint and bd + '.normalise()' in eint and 'bulk_velocity' in eint \
+        ok = ok and eint.startswith('ms_to_evamu(') and 'self._beam.get_energy()' in eint and bd + '.normalise()' in eint and 'bulk_velocity' in eint \
             and '.sub(' in eint and 'get_length()' in eint and tr == expr('self._target_species.distribution.effective_temperature' + XYZ).key() \
-            and [v.key() for v in a[:3]] == [pp + '.x', pp + '.y', pp + '.z'] and 'evamu_to_ms(self._beam.get_energy())' in dv
+            and a[:3] == [pp + '.x', pp + '.y', pp + '.z'] and 'evamu_to_ms(self._beam.get_energy())' in dv
     if ok:
         run.ok('C05-R2', 'interaction energy provenance', 'ms_to_evamu(|direction.normalise() * v(E_beam) - v_receiver|), T of the receiver species')
     else:
         run.fail('C05-R2', K + 'emission|interaction-energy', ci.mod.relpath, fn.lineno,
                  'the composite rate is evaluated with (E_int, T) = %s; documented: interaction energy from beam direction, beam energy and '
                  'receiver bulk velocity, receiver temperature' % (detail,))
-    # R3 guards
-    first_rate = min([c.lineno for c in ast.walk(fn) if isinstance(c, ast.Call) and norm(c.func) in ('self._composite_cx_rate', 'self._lineshape.add_line')] or [0])
-    for q, what in (('donor_density', 'beam density'), ('receiver_density', 'receiver density')):
-        run.subject('C05-R3')
-        okg = False
-        for n in fn.body:
-            if isinstance(n, ast.If) and norm(n.test) in ('%s == 0.0' % q, '%s == 0' % q, '%s <= 0' % q, '%s <= 0.0' % q) and n.lineno < first_rate \
-                    and len(n.body) == 1 and isinstance(n.body[0], ast.Return) and norm(n.body[0].value) == sp:
-                okg = True
-        if okg:
-            run.ok('C05-R3', 'CX ' + what, '%s == 0 -> return spectrum before any rate' % q)
-        else:
-            run.fail('C05-R3', K + 'emission|guard:' + q, ci.mod.relpath, fn.lineno, 'CX emission does not return the untouched spectrum for zero %s before evaluating rates' % what)
-    # composite rate
+    # composite rate: value returned by one symbolic pass over the excited states
     fn = _m(ci, '_composite_cx_rate')
     x, y, z, ei, dv, tr = [a.arg for a in fn.args.args[1:7]]
-    loops = [l for l in fn.body if isinstance(l, ast.For)]
-    pre = [st for st in fn.body if not isinstance(st, (ast.For, ast.Return))]
-    e = EmEval()
-    run_block(e, [st for st in pre if st.lineno < (loops[0].lineno if loops else 10 ** 9)])
     run.subject('C05-R2')
+    try:
+        paths = _paths(fn)
+    except Exception as ex:
+        run.undecided('C05-R2', '_composite_cx_rate', 'cannot interpret: %s' % ex)
+        return
     want_args = [L(ei), L(tr), expr('self._plasma.ion_density(%s, %s, %s)' % (x, y, z)), expr('self._plasma.z_effective(%s, %s, %s)' % (x, y, z)),
                  expr('self._plasma.get_b_field().evaluate(%s, %s, %s).get_length()' % (x, y, z))]
-    evals = [c for c in ast.walk(fn) if isinstance(c, ast.Call) and isinstance(c.func, ast.Attribute) and c.func.attr == 'evaluate'
-             and norm(c.func.value) in ('self._ground_beam_rate', 'cx_rate')]
-    bad = []
-    for c in evals:
-        got_args = [e.ev(a) for a in c.args]
-        if len(got_args) != 5 or any(not g.eq(w) for g, w in zip(got_args, want_args)):
-            bad.append((c, [g.key()[:60] for g in got_args]))
-    if len(evals) >= 2 and not bad:
+    wa = ', '.join(w.key() for w in want_args)
+    loops = [l for l in fn.body if isinstance(l, ast.For)]
+    if len(paths) != 1 or len(loops) != 1 or norm(loops[0].iter) not in ('self._excited_beam_data',):
+        run.undecided('C05-R2', '_composite_cx_rate', 'expected one loop over the excited-state data and one path')
+        return
+    val = paths[0].returned
+    leaves = sorted(val.leaves()) if val is not None else []
+    q1 = [l for l in leaves if l.startswith('self._ground_beam_rate.evaluate(')]
+    kk = [l for l in leaves if l.startswith('self._beam_population(')]
+    qi = [l for l in leaves if '.evaluate(' in l and l not in q1 and not l.startswith('self._plasma')]
+    bad_args = [l for l in q1 + qi if not l.endswith('.evaluate(%s)' % wa)]
+    if not q1 or not qi:
+        run.undecided('C05-R2', '_composite_cx_rate', 'ground / excited coefficients not recognised in %s' % (val.key()[:120] if val is not None else None))
+    elif bad_args:
+        run.fail('C05-R2', K + '_composite_cx_rate|arguments:' + bad_args[0].split('.evaluate(')[0], ci.mod.relpath, fn.lineno,
+                 '%s; documented order: (interaction energy, receiver temperature, total ion density, Z-effective, |B|)' % bad_args[0][:200])
+    else:
         run.ok('C05-R2', 'effective coefficient arguments', '(E_int, T_rec, ion_density, z_effective, |B|) for ground and excited states')
-    else:
-        c, ga = bad[0] if bad else (fn, None)
-        run.fail('C05-R2', K + '_composite_cx_rate|arguments:' + (norm(c.func.value) if bad else 'missing'), ci.mod.relpath, getattr(c, 'lineno', fn.lineno),
-                 '%s.evaluate receives %s; documented order: (interaction energy, receiver temperature, total ion density, Z-effective, |B|)'
-                 % (norm(c.func.value) if bad else 'rate', ga))
     run.subject('C05-R1')
-    ok = False
-    detail = None
-    if len(loops) == 1 and norm(loops[0].iter) == 'self._excited_beam_data':
-        e2 = EmEval(dict(e.env))
-        e2.env['rate'] = L('Q1')
-        e2.env['total_population'] = L('P0')
-        run_block(e2, loops[0].body)
-        k = e2.env.get('population')
-        qi = [c for c in evals if norm(c.func.value) == 'cx_rate']
-        if k is not None and qi:
-            qv = e2.ev(qi[0])
-            num, den = e2.env.get('rate'), e2.env.get('total_population')
-            init_rate = e.env.get('rate')
-            init_pop = e.env.get('total_population')
-            post = [st for st in fn.body if st.lineno > loops[0].lineno]
-            div = [st for st in post if isinstance(st, ast.AugAssign) and isinstance(st.op, ast.Div) and norm(st.target) == 'rate' and norm(st.value) == 'total_population']
-            ret = [st for st in post if isinstance(st, ast.Return) and norm(st.value) == 'rate']
-            detail = (num, den)
-            ok = num.eq(L('Q1') + k * qv) and den.eq(L('P0') + k) and init_pop is not None and init_pop.eq(C(1)) \
-                and init_rate is not None and init_rate.key().startswith('self._ground_beam_rate.evaluate(') and bool(div) and bool(ret) \
-                and k.key().startswith('self._beam_population(')
-    if ok:
-        run.ok('C05-R1', 'population-weighted mean', 'q = (q_1 + sum k_i q_i) / (1 + sum k_i), same k_i in both sums')
+    if val is None or len(q1) != 1 or len(qi) != 1 or len(kk) != 1:
+        run.undecided('C05-R1', 'population-weighted mean', 'returned value not recognised: %s' % (val.key()[:160] if val is not None else None))
     else:
-        run.fail('C05-R1', K + '_composite_cx_rate|weighted-mean', ci.mod.relpath, fn.lineno,
-                 'the composite coefficient is not (q_1 + sum_i k_i q_i) / (1 + sum_i k_i) with the same populations in both sums: per excited state '
-                 'numerator/denominator become %s' % (detail,))
+        Q1, QI, Kp = L(q1[0]), L(qi[0]), L(kk[0])
+        if val.eq((Q1 + Kp * QI) / (C(1) + Kp)):
+            run.ok('C05-R1', 'population-weighted mean', 'q = (q_1 + sum k_i q_i) / (1 + sum k_i), same k_i in both sums')
+        else:
+            run.fail('C05-R1', K + '_composite_cx_rate|weighted-mean', ci.mod.relpath, fn.lineno,
+                     'the composite coefficient is %s per excited state; documented: (q_1 + sum_i k_i q_i) / (1 + sum_i k_i) with the same '
+                     'populations in both sums' % val.key()[:300].replace(q1[0], 'q1').replace(qi[0], 'qi').replace(kk[0], 'k'))
     # beam population
     fn = _m(ci, '_beam_population')
     _charged_sum(run, ci, fn, 'population_data', 'coeff', mean=True)
@@ -207,71 +305,97 @@ def _be(run, ci):
     K = ci.mod.name + '|BeamEmissionLine|'
     fn = _m(ci, 'emission')
     bp, pp, bd, od, sp = [a.arg for a in fn.args.args[1:6]]
-    e, rec = body_env(fn)
-    call = [c for c in ast.walk(fn) if isinstance(c, ast.Call) and isinstance(c.func, ast.Attribute) and c.func.attr == 'add_line']
-    run.subject('C05-R1')
-    got = e.ev(call[0].args[0]) if call else None
-    rc = [c for c in ast.walk(fn) if isinstance(c, ast.Call) and norm(c.func) == 'self._beam_emission_rate']
-    if got is not None and rc:
-        want = L('RECIP_4_PI') * expr('self._beam.density(%s.x, %s.y, %s.z)' % (bp, bp, bp)) * e.ev(rc[0])
-        a = [e.ev(v).key() for v in rc[0].args]
-        okargs = a[:3] == [pp + '.x', pp + '.y', pp + '.z'] and 'evamu_to_ms(self._beam.get_energy())' in a[3] and bd + '.normalise()' in a[3]
-        if got.eq(want) and okargs:
-            run.ok('C05-R1', 'beam emission radiance', 'RECIP_4_PI * n_beam * rate(plasma point, beam velocity)')
+    r = _emission(run, ci, 'be')
+    if r is not None:
+        e, rc, leaves = r
+        run.subject('C05-R1')
+        if leaves:
+            bad = None
+            for lf in leaves:
+                a = _split_args(lf)
+                if not (len(a) == 4 and a[:3] == [pp + '.x', pp + '.y', pp + '.z'] and 'evamu_to_ms(self._beam.get_energy())' in a[3] and bd + '.normalise()' in a[3]):
+                    bad = a
+            if bad is None:
+                run.ok('C05-R1', 'beam emission rate arguments', 'rate(plasma point, beam velocity)')
+            else:
+                run.fail('C05-R1', K + 'emission|radiance', ci.mod.relpath, fn.lineno,
+                         'beam emission rate is evaluated with the arguments %s; documented: the plasma-space point and the beam velocity' % bad)
         else:
-            run.fail('C05-R1', K + 'emission|radiance', ci.mod.relpath, fn.lineno, 'beam emission radiance is %s with rate arguments %s' % (got.key()[:200], a))
-    else:
-        run.fail('C05-R1', K + 'emission|radiance', ci.mod.relpath, fn.lineno, 'beam emission does not hand a radiance built from _beam_emission_rate to the line shape')
-    run.subject('C05-R3')
-    first_rate = min([c.lineno for c in rc] or [0])
-    okg = any(isinstance(n, ast.If) and norm(n.test) in ('beam_density == 0.0', 'beam_density == 0', 'beam_density <= 0', 'beam_density <= 0.0') and n.lineno < first_rate
-              and len(n.body) == 1 and isinstance(n.body[0], ast.Return) and norm(n.body[0].value) == sp for n in fn.body)
-    if okg:
-        run.ok('C05-R3', 'beam emission beam density', 'beam_density == 0 -> return spectrum before the rate')
-    else:
-        run.fail('C05-R3', K + 'emission|guard:beam_density', ci.mod.relpath, fn.lineno, 'beam emission does not return the untouched spectrum for zero beam density')
+            run.undecided('C05-R1', 'beam emission rate arguments', 'no call of _beam_emission_rate on an emitting path')
     _charged_sum(run, ci, _m(ci, '_beam_emission_rate'), 'self._rates_list', 'rate_func', mean=False)
 
 
 def _plasma(run, ci):
     run.describe('C05-R4', 'Plasma.z_effective = sum n Z^2 / sum n Z over charge > 0; ion_density = sum n')
     K = ci.mod.name + '|Plasma|'
-    fn = _m(ci, 'z_effective')
-    x, y, z = [a.arg for a in fn.args.args[1:4]]
-    XYZ = '(%s, %s, %s)' % (x, y, z)
-    loops = [l for l in fn.body if isinstance(l, ast.For)]
-    run.subject('C05-R4')
-    ok = False
-    detail = None
-    if len(loops) == 1 and norm(loops[0].iter) == 'self._composition':
+    from ..inline import propagate
+    for name in ('z_effective', 'ion_density'):
+        fn0 = _m(ci, name)
+        fn = propagate(fn0)
+        x, y, z = [a.arg for a in fn.args.args[1:4]]
+        run.subject('C05-R4')
+        loops = [l for l in fn.body if isinstance(l, ast.For)]
+        if len(loops) != 1 or norm(loops[0].iter) not in ('self._composition', 'self.composition') or not isinstance(loops[0].target, ast.Name):
+            run.undecided('C05-R4', name, 'loop over the composition not recognised')
+            continue
         sp = loops[0].target.id
-        ifs = [s for s in loops[0].body if isinstance(s, ast.If)]
-        if len(ifs) == 1 and norm(ifs[0].test) == sp + '.charge > 0':
-            e = EmEval({'sum_nz': L('A0'), 'sum_nz2': L('B0')})
-            run_block(e, ifs[0].body)
-            N = expr('%s.distribution.density%s' % (sp, XYZ))
-            Z = L(sp + '.charge')
-            detail = (e.env['sum_nz'], e.env['sum_nz2'])
-            ret = [r for r in ast.walk(fn) if isinstance(r, ast.Return)]
-            ok = e.env['sum_nz'].eq(L('A0') + N * Z) and e.env['sum_nz2'].eq(L('B0') + N * Z * Z) and ret and norm(ret[-1].value) == 'sum_nz2 / sum_nz'
-    if ok:
-        run.ok('C05-R4', 'z_effective', 'sum n Z^2 / sum n Z over charge > 0')
-    else:
-        run.fail('C05-R4', K + 'z_effective|form', ci.mod.relpath, fn.lineno, 'z_effective accumulates %s; documented: sum n Z^2 / sum n Z over ions' % (detail,))
-    fn = _m(ci, 'ion_density')
-    x, y, z = [a.arg for a in fn.args.args[1:4]]
-    loops = [l for l in fn.body if isinstance(l, ast.For)]
-    run.subject('C05-R4')
-    ok = False
-    if len(loops) == 1 and norm(loops[0].iter) == 'self._composition':
-        sp = loops[0].target.id
-        e = EmEval({'ion_density': L('A0')})
-        run_block(e, loops[0].body, follow_if=True)
-        ok = e.env['ion_density'].eq(L('A0') + expr('%s.distribution.density(%s, %s, %s)' % (sp, x, y, z))) and not any(isinstance(s, ast.If) for s in loops[0].body)
-    if ok:
-        run.ok('C05-R4', 'ion_density', 'sum over all species of n')
-    else:
-        run.fail('C05-R4', K + 'ion_density|form', ci.mod.relpath, fn.lineno, 'ion_density is not the plain sum of the species densities')
+        try:
+            paths = _paths(fn)
+        except Exception as ex:
+            run.undecided('C05-R4', name, 'cannot interpret: %s' % ex)
+            continue
+        N = expr('%s.distribution.density(%s, %s, %s)' % (sp, x, y, z))
+        Z = L(sp + '.charge')
+        verdict = []
+        for p_ in paths:
+            dec = dict(p_.decisions)
+            if p_.returned is not None and p_.returned.key() == 'raise':
+                continue
+            # is the species counted on this path?  (charge > 0 / charge < 1 / charge <= 0 tests, for integer charges)
+            ion = None
+            for k, bv in dec.items():
+                m = k.replace(' ', '')
+                for suf, pos in (('.charge>0', True), ('.charge>=1', True), ('.charge<1', False), ('.charge<=0', False), ('.charge==0', False), ('.charge!=0', True)):
+                    if m.endswith(suf):
+                        ion = bv if pos else (not bv)
+            other = {k: v for k, v in dec.items() if '.charge' not in k and (sp + '.') in k}
+            verdict.append((ion, other, p_.returned, dec))
+        if name == 'z_effective':
+            ok = None
+            why = None
+            for ion, other, val, dec in verdict:
+                if val is None:
+                    continue
+                if ion is True and not other:
+                    # single symbolic pass over an ion: (0 + n Z^2) / (0 + n Z)
+                    if val.eq((N * Z * Z) / (N * Z)):
+                        ok = True if ok is None else ok
+                    else:
+                        ok, why = False, 'an ion contributes %s' % val.key()[:120]
+                if ion is None and not other:
+                    ok, why = False, 'species are not filtered by charge > 0 (path %s)' % dec
+            # neutrals must not contribute: on the path where the species is not an ion nothing is accumulated
+            neutral = [v for v in verdict if v[0] is False]
+            for ion, other, val, dec in neutral:
+                if val is not None and any(N.key() in l or l == N.key() for l in val.leaves()):
+                    ok, why = False, 'a neutral contributes %s' % val.key()[:120]
+            if ok:
+                run.ok('C05-R4', 'z_effective', 'sum n Z^2 / sum n Z over charge > 0')
+            elif ok is False:
+                run.fail('C05-R4', K + 'z_effective|form', ci.mod.relpath, fn0.lineno, 'z_effective: %s; documented: sum n Z^2 / sum n Z over ions' % why)
+            else:
+                run.undecided('C05-R4', 'z_effective', 'accumulation not recognised: %s' % [(v[3], v[2].key()[:60] if v[2] is not None else None) for v in verdict][:3])
+        else:
+            vals = [v for v in verdict if v[2] is not None]
+            if len(vals) == 1 and not vals[0][3] and vals[0][2].eq(N):
+                run.ok('C05-R4', 'ion_density', 'sum over all species of n')
+            elif vals and any(v[3] for v in vals):
+                run.fail('C05-R4', K + 'ion_density|form', ci.mod.relpath, fn0.lineno,
+                         'ion_density counts a species only under the condition %s: it is not the plain sum of the species densities' % vals[0][3])
+            elif vals:
+                run.fail('C05-R4', K + 'ion_density|form', ci.mod.relpath, fn0.lineno, 'ion_density accumulates %s per species, not its density' % vals[0][2].key()[:100])
+            else:
+                run.undecided('C05-R4', 'ion_density', 'accumulation not recognised')
 
 
 _CX = 'cherab/core/model/beam/charge_exchange.pyx'
